@@ -186,8 +186,12 @@ class GeminiClient:
 
         # Create protocol instance with normalized URL
         # Per spec: "client SHOULD add trailing '/' for empty paths"
+        # With TOFU the request is only sent once the certificate is verified
         protocol = GeminiClientProtocol(
-            parsed.normalized, response_future, decode_body=self.decode_bodies
+            parsed.normalized,
+            response_future,
+            decode_body=self.decode_bodies,
+            send_on_connect=self.tofu_db is None,
         )
 
         # Create connection using Protocol/Transport pattern
@@ -241,6 +245,9 @@ class GeminiClient:
                     elif message == "first_use":
                         # First time seeing this host - trust it
                         self.tofu_db.trust(parsed.hostname, parsed.port, cert)
+
+                # Certificate accepted: now the request may be sent
+                protocol.send_request()
 
             # Wait for response with timeout
             response: GeminiResponse = await asyncio.wait_for(
@@ -390,7 +397,14 @@ class GeminiClient:
         response_future: asyncio.Future = loop.create_future()
 
         # Create protocol instance
-        protocol = TitanClientProtocol(titan_url, content_bytes, response_future)
+        # With TOFU the request (URL, token and content) is only sent once the
+        # certificate is verified
+        protocol = TitanClientProtocol(
+            titan_url,
+            content_bytes,
+            response_future,
+            send_on_connect=self.tofu_db is None,
+        )
 
         # Create connection using Protocol/Transport pattern
         try:
@@ -443,6 +457,9 @@ class GeminiClient:
                     elif message == "first_use":
                         # First time seeing this host - trust it
                         self.tofu_db.trust(parsed.hostname, parsed.port, cert)
+
+                # Certificate accepted: now the request may be sent
+                protocol.send_request()
 
             # Wait for response with timeout
             response: GeminiResponse = await asyncio.wait_for(
